@@ -181,6 +181,10 @@ func runC10Case(seed int64, idx int) *c10Result {
 		}
 		plURL := baseURL + name
 		pl := &origin.Playlist{URL: plURL, TargetDuration: 1, OmitRangeStart: rangeMode == "nostart"}
+		if rangeMode == "nostart" && idx%2 == 1 {
+			pl.RangeStartEvery = 2 + idx%3 // explicit offsets again in the middle of the run
+			feats["range-offsets-mixed"] = true
+		}
 		p := &c10Playlist{url: plURL, stream: st, nSeg: nSeg, reqKey: map[string]int{}, segDone: map[int]int64{}}
 		supported := func(t *origin.Track) bool {
 			return container != "ts" || t.Kind == media.H264 || t.Kind == media.AAC
